@@ -277,7 +277,11 @@ func c12Differential(t *testing.T, kind string, nHist int, rule string) {
 		header := "wrapper=redis.Redis"
 		if kind == "kv" {
 			var cfg string
-			side, cfg = c12KVSide(w, r)
+			boundary := 0
+			if idx <= 2 { // histories 1 and 2: smallest valid weights
+				boundary = idx
+			}
+			side, cfg = c12KVSide(w, r, boundary)
 			header = "wrapper=kv.Store;" + cfg
 		} else if clusterOK && idx%8 == 0 { // the cluster client costs 3 round trips per command against miniredis
 			side, _ = c12RedisSide(w, true)
